@@ -4,6 +4,7 @@ let channels : (string * ((string * string) list -> string)) list = [
   ("art", Chan_art.run);
   ("flags", Chan_flags.run_flags);
   ("jprops", Chan_flags.run_jprops);
+  ("prank", Chan_prank.run);
 ]
 
 let () =
